@@ -48,6 +48,10 @@ def run_case(case):
             g.ignore_program = True
         if u.get("fault") == "mute_verify":
             g.mute_verify = True
+        if u.get("state"):
+            # left over from an earlier run that never reached its TERMINATE (abandoned, failed, interrupted)
+            g.init_state = u["state"]
+            g.random = u.get("old_random", 0x123456 + i)
         units.append(g)
     before = [u.short for u in units]
     permitted = case["permitted"]
@@ -150,6 +154,8 @@ def features(case):
         f.append("readdress")
     if len(set(u["short"] for u in case["units"] if u["short"] is not None)) < len([u for u in case["units"] if u["short"] is not None]):
         f.append("duplicate-initial-addresses")
+    if any(u.get("state") for u in case["units"]):
+        f.append("gear-left-in-initialisation-mode")
     return f
 
 
@@ -164,6 +170,12 @@ def case_strategy(draw):
     addr = st.one_of(st.none(), st.none(), st.integers(0, 63), st.integers(0, 5))
     draws = st.lists(st.one_of(st.sampled_from(POOL), st.sampled_from(POOL[:3]), st.integers(0, 0xFFFFFF)), max_size=4)
     units = [{"short": draw(addr), "randoms": draw(draws)} for _ in range(n)]
+    if n and draw(st.integers(0, 3)) == 0:
+        # some gear are still in initialisation mode from an earlier run
+        for u in units:
+            if draw(st.booleans()):
+                u["state"] = draw(st.sampled_from(["ENABLED", "WITHDRAWN"]))
+                u["old_random"] = draw(st.sampled_from([0, 5, 0x800000, 0xFFFFFF, 0x123456]))
     kind = draw(st.sampled_from(["none", "none", "empty", "single", "subset", "small", "all"]))
     if kind == "none":
         permitted = None
